@@ -10,6 +10,7 @@ disjunction of terms each of which says "some byte of the whole input has proper
 so that the input is accepted iff every byte satisfies the conjunction of the !psi.  The admitted byte set is then
 computed by evaluating the per-byte formulas at 0..=255 (integer semantics of range / comparison / equality atoms).
 Anything else is `not extractable` and the calling rule fails closed."""
+import re
 import formula as F
 from formula import Or
 import common
@@ -34,91 +35,150 @@ def reject_formula(out, fl):
     return R, None
 
 
-def _eval_bytes(body, param):
-    """{b : body holds at elem = b}; every atom must be a numeric test of `<param>[]`."""
-    vs = set()
-    for b in F.atoms(body):
-        if b[0] == "inrange":
-            vs.add(b[1])
-        elif b[0] == "cmp":
-            vs |= {x for x in (b[2], b[3]) if not str(x).lstrip("-").isdigit()}
-        elif b[0] == "eq":
-            vs |= {x for x in (b[1], b[2]) if not str(x).lstrip("-").isdigit()}
-        else:
-            return None, "unrecognised per-byte test %s" % F.show_atom(b)
-    if len(vs) != 1:
-        return None, "per-byte predicate is not over one variable: %s" % sorted(vs)
-    var = next(iter(vs))
-    if var != param + "[]":
-        return None, "per-byte predicate tests %s, not an element of the input `%s`" % (var, param)
+_ASCII_ATOM = re.compile(r"^core::num::<impl u8>::(is_ascii\w*)\((.+)\)$")
+
+
+def _eval_bytes(body, var):
+    """{b : body holds at element = b}; every atom must be a numeric test (range / comparison / equality / u8::is_ascii_*)
+    of the element variable `var`."""
+    import ceval
     sat = set()
+    ats = F.atoms(body)
+    for b in ats:
+        if b[0] == "inrange" and b[1] == var:
+            continue
+        if b[0] == "cmp" and var in (b[2], b[3]):
+            continue
+        if b[0] == "eq" and var in (b[1], b[2]):
+            continue
+        if b[0] in ("opaque", "true"):
+            m = _ASCII_ATOM.match(str(b[1]))
+            if m and m.group(2) == var:
+                continue
+        return None, "unrecognised per-byte test %s (element is %s)" % (F.show_atom(b)[:100], var)
     for x in range(256):
-        r = F.int_semantics(body, var, x)
-        if r is None:
-            return None, "per-byte predicate not evaluable"
-        if r:
+        asg = {}
+        for b in ats:
+            if b[0] in ("opaque", "true"):
+                m = _ASCII_ATOM.match(str(b[1]))
+                asg[b] = ceval._ascii_pred(m.group(1), x)
+            else:
+                r = F.int_semantics(("atom", b), var, x)
+                if r is None:
+                    return None, "per-byte test not evaluable: %s" % F.show_atom(b)[:100]
+                asg[b] = r
+        if F.evalf(body, asg):
             sat.add(x)
     return sat, None
 
 
-def byte_acceptance(crate, fn):
-    """(set of admitted byte values | None, description, interpreter)"""
+def rejection_terms(crate, fn):
+    """Normalised rejection formula of a validating constructor: a list of
+         ("forall", source value, per-element acceptance formula, element value)   input rejected unless every element passes
+         ("plain", formula)                                                         input rejected when the formula holds
+       or (None, why).  `!all(S, phi)`, `any(S, psi)` and an early `return Err` inside a `for` over S (whole collection,
+       no break / continue) all normalise to the same "forall" term."""
     I = Interp(crate)
     out = I.run_fn(fn)
     fl = [(c, v, n) for c, v, n, f in I.fails if f == fn or f in I.inlined]
-    body = crate.body(fn)
-    params = [p.get("name") for p in body.get("params", [])]
-    if len(params) != 1 or not params[0]:
-        return None, "constructor does not take exactly one named input", I
-    param = params[0]
     R, why = reject_formula(out, fl)
     if R is None:
-        return None, why, I
-    terms = list(R[1]) if (R is not True and R is not False and R[0] == "or") else [R]
+        return None, why, I, out
     if R is False:
-        return set(range(256)), "never rejects", I
+        return [], "never rejects", I, out
     if R is True:
-        return None, "always rejects", I
-    acc = set(range(256))
-    desc = []
+        return None, "always rejects", I, out
+    terms = list(R[1]) if R[0] == "or" else [R]
+    res = []
     for t in terms:
-        neg = t is not True and t is not False and t[0] == "not"
-        a = (t[1] if neg else t)
-        if a[0] == "atom" and a[1][0] == "opaque" and ("::is_ascii(%s)" % param) in str(a[1][1]) and neg:
-            acc &= set(range(0x80))
-            desc.append("is_ascii")
-            continue
-        if a[0] == "atom" and a[1][0] in ("all", "any") and a[1][1] == param and ((a[1][0] == "all") == neg):
+        neg = t[0] == "not"
+        a = t[1] if neg else t
+        if a[0] == "atom" and a[1][0] in ("all", "any") and ((a[1][0] == "all") == neg):
             vals = I.atom_vals.get(a[1])
-            if not vals:
-                return None, "per-byte predicate body not recorded", I
-            sat, why = _eval_bytes(vals[0], param)
-            if sat is None:
-                return None, why, I
-            acc &= sat if a[1][0] == "all" else (set(range(256)) - sat)
-            desc.append("%s(%s)" % (a[1][0], F.show(vals[0])[:60]))
+            if not vals or len(vals) < 3:
+                return None, "per-element predicate not recorded", I, out
+            body, elem, src = vals
+            res.append(("forall", src, body if a[1][0] == "all" else F.Not(body), elem))
             continue
         if t[0] == "and":
             loopats = [g for g in t[1] if g[0] == "atom" and g[1][0] == "opaque" and str(g[1][1]).startswith("in-loop@")]
             rest = [g for g in t[1] if g not in loopats]
-            if len(loopats) == 1 and rest and whole_input_loops(crate, fn, param):
-                sat, why = _eval_bytes(F.And(*rest), param)
-                if sat is None:
-                    return None, why, I
-                acc &= set(range(256)) - sat
-                desc.append("for-each-byte(!%s)" % F.show(F.And(*rest))[:60])
+            if len(loopats) == 1 and rest:
+                lv = I.atom_vals.get(loopats[0][1])
+                if not lv or not no_loop_escape(crate, fn, I):
+                    return None, "loop with break / continue", I, out
+                res.append(("forall", lv[1], F.Not(F.And(*rest)), lv[2]))
                 continue
-        return None, "unrecognised rejection term %s" % F.show(t)[:160], I
-    return acc, "; ".join(desc), I
+        res.append(("plain", t))
+    return res, None, I, out
 
 
-def whole_input_loops(crate, fn, param):
-    """every `for` in fn iterates over the whole input (as_bytes()/bytes()/iter()) and nothing leaves a loop early
-    except `return`"""
-    b = crate.body(fn)
-    loops = [n for n in common.hir_walk(b["hir"]) if n["k"] == "For"]
-    if len(loops) != 1:
-        return False
-    if any(n["k"] in ("Break", "Continue") for n in common.hir_walk(loops[0]["body"])):
-        return False
-    return core(Interp(crate).ev(loops[0]["iter"], {})).r() == param
+def no_loop_escape(crate, fn, I):
+    for name in [fn] + sorted(I.inlined):
+        b = crate.bodies.get(name)
+        if not b or "hir" not in b:
+            continue
+        for n in common.hir_walk(b["hir"]):
+            if n["k"] == "For" and any(m["k"] in ("Break", "Continue") for m in common.hir_walk(n["body"])):
+                return False
+    return True
+
+
+def byte_acceptance(crate, fn):
+    """(set of admitted byte values | None, description, interpreter)"""
+    body = crate.body(fn)
+    params = [p.get("name") for p in body.get("params", [])]
+    if len(params) != 1 or not params[0]:
+        return None, "constructor does not take exactly one named input", None
+    param = params[0]
+    terms, why, I, out = rejection_terms(crate, fn)
+    if terms is None:
+        return None, why, I
+    acc = set(range(256))
+    desc = []
+    probe = None
+    for t in terms:
+        if t[0] == "forall":
+            _, src, body_f, elem = t
+            if core(src).r() != param:
+                return None, "the per-byte test ranges over `%s`, not over the whole input `%s`" % (core(src).r()[:60], param), I
+            sat, why = _eval_bytes(body_f, core(elem).r())
+            if sat is None:
+                # the formula's atoms are not in the recognised vocabulary: the structure (one predicate applied to every
+                # byte of the whole input) is established, so the predicate's extension is exactly the set of
+                # single-byte inputs the constructor accepts - computed by constant propagation (analysis L)
+                if probe is None:
+                    probe = single_byte_probe(crate, fn)
+                if probe[0] is None:
+                    return None, "%s; and %s" % (why, probe[1]), I
+                sat = probe[0]
+                why = "single-byte probe"
+            acc &= sat
+            desc.append("every byte: %s" % (F.show(body_f)[:70] if why is None else why))
+            continue
+        f = t[1]
+        neg = f is not True and f is not False and f[0] == "not"
+        a = f[1] if neg else f
+        if a[0] == "atom" and a[1][0] == "opaque" and ("::is_ascii(%s)" % param) in str(a[1][1]) and neg:
+            acc &= set(range(0x80))
+            desc.append("is_ascii")
+            continue
+        return None, "unrecognised rejection term %s" % F.show(f)[:160], I
+    return acc, "; ".join(desc) or "never rejects", I
+
+
+def single_byte_probe(crate, fn):
+    """{b : the constructor returns Ok for the one-byte input [b]} by exhaustive constant propagation, or (None, why)"""
+    import ceval
+    E = ceval.Eval(crate, budget=5_000_000)
+    acc = set()
+    for b in range(256):
+        try:
+            r = E.call(fn, [ceval.RStr([b])])
+        except (ceval.Unsupported, ceval.Panic) as e:
+            return None, "constructor not evaluable on a one-byte input: %s: %s" % (type(e).__name__, e)
+        if not isinstance(r, ceval.Adt) or r.variant not in ("Ok", "Err"):
+            return None, "constructor returned %r" % (r,)
+        if r.variant == "Ok":
+            acc.add(b)
+    return acc, None
